@@ -1,4 +1,4 @@
-\* the code on histories without a write between handle and registration and without two memory databases created in one clock tick: the properties that hold for the code
+\* the code (after the repairs of the creation time key and of Close) on histories without a write between handle and registration: the properties that hold for the code
 CONSTANTS
   Leader = {1}
   MaxRow = 2
@@ -7,7 +7,7 @@ CONSTANTS
   MaxFail = 1
   MaxRef = 1
   DoubleWindow = TRUE
-  CloseLocksFirst = TRUE
+  CloseLocksFirst = FALSE
   RetryFailed = FALSE
   ClosedRejects = FALSE
   AtomicWrite = TRUE
@@ -18,6 +18,6 @@ CONSTANTS
   CloseFlushes = TRUE
   AckFrozen = TRUE
 SPECIFICATION MCSpec
-INVARIANTS TypeOK FlushShape FlushedOnce AckNotAhead AckedRowsDurable ClosedIsFlushed
+INVARIANTS TypeOK FlushShape FlushedOnce AckNotAhead AckedRowsDurable ClosedIsFlushed NoStuck
 PROPERTIES FrozenNeverGrows
 CHECK_DEADLOCK FALSE
